@@ -68,7 +68,7 @@ Lemma fold_max_le (f : node -> nat) l n : (forall b, In b l -> f b <= n) ->
 Proof. induction l; cbn; intros; [lia|]. apply Nat.max_lub; auto. Qed.
 
 Lemma fold_max_ge (f : node -> nat) l b : In b l -> f b <= fold_right (fun b m => Nat.max (f b) m) 0 l.
-Proof. induction l; cbn; [tauto|]. intros [->|H]; [lia|]. specialize (IHl H). lia. Qed.
+Proof. induction l; cbn; [tauto|]. intros [-> |H]; [lia|]. specialize (IHl H). lia. Qed.
 
 Lemma height_le n g x : height n g x <= n.
 Proof.
@@ -110,4 +110,405 @@ Proof.
   intros R y x. destruct (reachb (r y) g y x) eqn:E.
   - left. eapply reachb_spec; eauto.
   - right. intros H. eapply reachb_spec in H; eauto. congruence.
+Qed.
+
+(* ------------------------------------------------------------------ C3 merge: fuel and members *)
+Lemma find_from_In cands seqs b : find_from cands seqs = Some b -> In b (concat cands).
+Proof.
+  induction cands as [|s l IH]; cbn; [discriminate|].
+  destruct s as [|h s]; cbn.
+  - exact IH.
+  - destruct (can_choose h seqs); [intros E; injection E; auto | intros E; right; apply in_or_app; auto].
+Qed.
+
+Lemma find_next_In seqs b : find_next seqs = Some b -> In b (concat seqs).
+Proof. apply find_from_In. Qed.
+
+Lemma concat_filter_nonempty (L : list (list node)) y :
+  In y (concat (filter nonempty L)) <-> In y (concat L).
+Proof.
+  induction L as [|s L IH]; cbn; [tauto|].
+  destruct s as [|h s]; cbn; [exact IH|].
+  rewrite !in_app_iff. cbn. rewrite IH. tauto.
+Qed.
+
+Lemma In_remove_everywhere b seqs y :
+  In y (concat (remove_everywhere b seqs)) <-> In y (concat seqs) /\ y <> b.
+Proof.
+  unfold remove_everywhere. rewrite concat_filter_nonempty.
+  induction seqs as [|s L IH]; cbn; [tauto|].
+  rewrite !in_app_iff, IH, filter_In, negb_true_iff, Nat.eqb_neq. tauto.
+Qed.
+
+Lemma total_len_filter_nonempty L : total_len (filter nonempty L) = total_len L.
+Proof. induction L as [|[|h s] L IH]; cbn; auto. Qed.
+
+Lemma filter_length_le {A} (p : A -> bool) s : length (filter p s) <= length s.
+Proof. induction s; cbn; [lia|]. destruct (p a); cbn; lia. Qed.
+
+Lemma filter_length_lt {A} (p : A -> bool) s b : In b s -> p b = false -> length (filter p s) < length s.
+Proof.
+  induction s as [|a s IH]; cbn; [tauto|]. intros [-> |H] Hp.
+  - rewrite Hp. pose proof (filter_length_le p s). lia.
+  - specialize (IH H Hp). destruct (p a); cbn; lia.
+Qed.
+
+Lemma total_len_cons s L : total_len (s :: L) = length s + total_len L.
+Proof. reflexivity. Qed.
+
+Lemma total_len_map_filter_le p L : total_len (map (filter p) L) <= total_len L.
+Proof.
+  induction L as [|s L IH]; [cbn; lia|]. cbn [map]. rewrite !total_len_cons.
+  pose proof (filter_length_le p s). lia.
+Qed.
+
+Lemma total_len_map_filter_lt p b seqs : In b (concat seqs) -> p b = false ->
+  total_len (map (filter p) seqs) < total_len seqs.
+Proof.
+  intros H E. induction seqs as [|s L IH]; [destruct H|].
+  cbn [concat map] in *. rewrite in_app_iff in H. rewrite !total_len_cons.
+  pose proof (total_len_map_filter_le p L) as Hle.
+  pose proof (filter_length_le p s) as Hs.
+  destruct H as [H|H].
+  - pose proof (filter_length_lt p s b H E) as Hlt. lia.
+  - specialize (IH H). lia.
+Qed.
+
+Lemma total_len_remove b seqs : In b (concat seqs) ->
+  total_len (remove_everywhere b seqs) < total_len seqs.
+Proof.
+  unfold remove_everywhere. rewrite total_len_filter_nonempty. intros H.
+  apply total_len_map_filter_lt with (b := b); auto. now rewrite Nat.eqb_refl.
+Qed.
+
+Lemma merge_loop_no_fuel fuel : forall seqs acc, total_len seqs < fuel -> merge_loop fuel seqs acc <> MFuel.
+Proof.
+  induction fuel as [|f IH]; intros seqs acc H; [lia|]. cbn.
+  destruct seqs as [|s L]; [discriminate|].
+  destruct (find_next (s :: L)) eqn:E; [|discriminate].
+  apply IH. apply find_next_In in E. apply total_len_remove in E. lia.
+Qed.
+
+Lemma merge_loop_members fuel : forall seqs acc l, merge_loop fuel seqs acc = MOk l ->
+  forall y, In y l <-> In y acc \/ In y (concat seqs).
+Proof.
+  induction fuel as [|f IH]; intros seqs acc l; cbn; [discriminate|].
+  destruct seqs as [|s L].
+  - intros E; injection E as <-. intros y. rewrite <- in_rev. cbn. tauto.
+  - destruct (find_next (s :: L)) eqn:E; [|discriminate]. intros H y.
+    rewrite (IH _ _ _ H y), In_remove_everywhere. cbn [In].
+    apply find_next_In in E.
+    destruct (Nat.eq_dec y n) as [-> |N]; [tauto|]. split; [intros [[?|?]|[? ?]]; auto; congruence | tauto].
+Qed.
+
+Lemma c3_merge_no_fuel seqs : c3_merge seqs <> MFuel.
+Proof. unfold c3_merge. apply merge_loop_no_fuel. lia. Qed.
+
+Lemma c3_merge_members seqs l : c3_merge seqs = MOk l -> forall y, In y l <-> In y (concat seqs).
+Proof.
+  unfold c3_merge. intros H y. rewrite (merge_loop_members _ _ _ _ H y), concat_filter_nonempty.
+  cbn. tauto.
+Qed.
+
+(* what one non-strict C3 node returns: the legacy order, or something between
+   {x} + the bases' orders and that + the bases themselves *)
+Lemma c3_node_members x bs ms leg :
+  exists l i, c3_node false x bs ms false leg = ROk l i /\
+    (l = leg \/ ((forall y, In y l -> y = x \/ In y (concat ms) \/ In y bs) /\
+                 (forall y, y = x \/ In y (concat ms) -> In y l))).
+Proof.
+  unfold c3_node.
+  assert (G : exists l i, match c3_merge ([[x]] ++ ms ++ [bs]) with
+                          | MOk l => ROk l false | MBad => ROk leg true | MFuel => RFuel end = ROk l i /\
+    (l = leg \/ ((forall y, In y l -> y = x \/ In y (concat ms) \/ In y bs) /\
+                 (forall y, y = x \/ In y (concat ms) -> In y l)))).
+  { destruct (c3_merge ([[x]] ++ ms ++ [bs])) eqn:E.
+    - exists l, false. split; auto. right.
+      pose proof (c3_merge_members _ _ E) as M.
+      assert (M' : forall y, In y l <-> y = x \/ In y (concat ms) \/ In y bs).
+      { intros y. rewrite M. cbn. rewrite concat_app, in_app_iff. cbn. rewrite app_nil_r.
+        split; [intros [?|[?|?]]; auto | intros [?|[?|?]]; auto]. }
+      split; intros y; rewrite M'; tauto.
+    - exists leg, true. auto.
+    - exfalso. eapply c3_merge_no_fuel; eauto. }
+  destruct bs as [|b [|b' bs']]; auto.
+  destruct ms as [|m [|m' ms']]; auto.
+  exists (x :: m), false. split; auto. right. cbn. rewrite app_nil_r.
+  split; intros y; [intros [?|?]; auto | intros [?|?]; auto].
+Qed.
+
+(* ------------------------------------------------------------------ legacy order *)
+Lemma keep_last_In l y : In y (keep_last l) <-> In y l.
+Proof.
+  induction l as [|x t IH]; cbn; [tauto|].
+  destruct (mem x t) eqn:E; cbn; rewrite IH; [|tauto].
+  apply mem_In in E. split; [auto|intros [-> |?]; auto].
+Qed.
+
+Lemma legacy_flatten_fuel g r : ranked g r -> forall f1 f2 x, r x <= f1 -> r x <= f2 ->
+  legacy_flatten f1 g x = legacy_flatten f2 g x.
+Proof.
+  intros R f1. induction f1 as [|f1 IH]; intros f2 x H1 H2.
+  - assert (E : bases g x = []).
+    { destruct (bases g x) as [|b bs] eqn:E; auto. specialize (R x b). rewrite E in R.
+      specialize (R (or_introl eq_refl)). lia. }
+    destruct f2; cbn; [auto|]. now rewrite E.
+  - destruct f2 as [|f2].
+    + assert (E : bases g x = []).
+      { destruct (bases g x) as [|b bs] eqn:E; auto. specialize (R x b). rewrite E in R.
+        specialize (R (or_introl eq_refl)). lia. }
+      cbn. now rewrite E.
+    + cbn. f_equal. rewrite !flat_map_concat_map. f_equal. apply map_ext_in.
+      intros b Hb. specialize (R _ _ Hb). apply IH; lia.
+Qed.
+
+Lemma legacy_flatten_In g r : ranked g r -> forall f x y, r x <= f ->
+  (In y (legacy_flatten f g x) <-> y = x \/ reach g x y).
+Proof.
+  intros R f. induction f as [|f IH]; intros x y H.
+  - cbn. split; [intros [?|[]]; auto|]. intros [?|K]; auto.
+    apply (ranked_reach _ _ R) in K. lia.
+  - cbn. rewrite in_flat_map. split.
+    + intros [?|[b [Hb K]]]; auto. right. apply IH in K; [|specialize (R _ _ Hb); lia].
+      destruct K as [-> |K]; [now apply reach_base | eapply reach_step; eauto].
+    + intros [?|K]; auto. right. apply reach_first in K. destruct K as [b [Hb K]].
+      exists b. split; auto. apply IH; [specialize (R _ _ Hb); lia|]. destruct K; auto.
+Qed.
+
+Lemma legacy_ro_In g r : ranked g r -> forall f x y, r x <= f ->
+  (In y (legacy_ro f g x) <-> y = x \/ reach g x y).
+Proof. intros R f x y H. unfold legacy_ro. rewrite keep_last_In. eapply legacy_flatten_In; eauto. Qed.
+
+Lemma legacy_ro_fuel g r : ranked g r -> forall f1 f2 x, r x <= f1 -> r x <= f2 ->
+  legacy_ro f1 g x = legacy_ro f2 g x.
+Proof. intros. unfold legacy_ro. f_equal. eapply legacy_flatten_fuel; eauto. Qed.
+
+(* frame: rebinding [x] does not change the legacy order of a node that does not reach [x] *)
+Lemma legacy_flatten_frame g x bs f : forall y,
+  y <> x -> ~ reach ((x, bs) :: g) y x ->
+  legacy_flatten f ((x, bs) :: g) y = legacy_flatten f g y.
+Proof.
+  induction f as [|f IH]; intros y N K; cbn [legacy_flatten]; auto.
+  rewrite bases_cons_other by auto. f_equal.
+  rewrite !flat_map_concat_map. f_equal. apply map_ext_in. intros b Hb.
+  assert (Hb' : In b (bases ((x, bs) :: g) y)) by now rewrite bases_cons_other.
+  apply IH.
+  - intros ->. apply K. now apply reach_base.
+  - intros K'. apply K. eapply reach_step; eauto.
+Qed.
+
+(* ------------------------------------------------------------------ one node's order *)
+Lemma calc_sro_fuel g r root0 c : ranked g r -> forall f1 f2 x, r x <= f1 -> r x <= f2 ->
+  calc_sro false root0 f1 g c x = calc_sro false root0 f2 g c x.
+Proof. intros R f1 f2 x H1 H2. unfold calc_sro. now rewrite (legacy_ro_fuel _ _ R f1 f2 x H1 H2). Qed.
+
+Lemma calc_sro_ext root0 f g c1 c2 x : (forall b, In b (bases g x) -> c1 b = c2 b) ->
+  calc_sro false root0 f g c1 x = calc_sro false root0 f g c2 x.
+Proof. intros H. unfold calc_sro. now rewrite (map_ext_in _ _ _ H). Qed.
+
+Lemma calc_ext g c1 c2 x : (forall b, In b (bases g x) -> c1 b = c2 b) -> calc g c1 x = calc g c2 x.
+Proof. intros H. unfold calc. now rewrite (calc_sro_ext _ _ _ _ _ _ H). Qed.
+
+Lemma root_last_In r0 l y : l <> [] -> (In y (root_last r0 l) <-> In y l \/ y = r0).
+Proof.
+  intros N. unfold root_last. destruct l as [|a l]; [congruence|].
+  destruct (last_is r0 (a :: l)) eqn:E.
+  - split; auto. intros [?| ->]; auto. unfold last_is in E.
+    destruct (rev (a :: l)) as [|z t] eqn:Er; [discriminate|]. apply Nat.eqb_eq in E. subst.
+    apply in_rev. rewrite Er. now left.
+  - rewrite in_app_iff, filter_In, negb_true_iff, Nat.eqb_neq. cbn [In].
+    destruct (Nat.eq_dec y r0); [subst; tauto|]. split; [intros [[? _]|[?|[]]]; auto; congruence | intros [?|?]; auto; congruence].
+Qed.
+
+(* members of the recomputed order, when every base's cached order has the right members *)
+Lemma calc_members g r c x : ranked g r -> r x <= fuel_of g -> bases g root = [] ->
+  (forall b, In b (bases g x) -> forall t, In t (c b) <-> t = b \/ reach g b t \/ t = root) ->
+  forall t, In t (calc g c x) <-> t = x \/ reach g x t \/ t = root.
+Proof.
+  intros R Hf Hroot Hc t. unfold calc, calc_sro.
+  destruct (Nat.eqb x root) eqn:Ex.
+  - apply Nat.eqb_eq in Ex. subst x. cbn. split; [intros [<- |[]]; auto|].
+    intros [?|[K|?]]; auto. apply reach_first in K. destruct K as [b [Hb _]]. rewrite Hroot in Hb. destruct Hb.
+  - destruct (c3_node_members x (bases g x) (map c (bases g x)) (legacy_ro (fuel_of g) g x))
+      as [l [i [E M]]]. rewrite E.
+    assert (Hx : In x l).
+    { destruct M as [-> |[_ M]]; [eapply legacy_ro_In; eauto | apply M; auto]. }
+    rewrite root_last_In by (intros ->; destruct Hx).
+    assert (Hl : In t l <-> t = x \/ reach g x t \/ (t = root /\ In root l)).
+    { destruct M as [-> |[M1 M2]].
+      - rewrite (legacy_ro_In _ _ R _ _ t Hf). split; [intros [?|?]; auto|].
+        intros [?|[?|[-> K]]]; auto. eapply legacy_ro_In; eauto.
+      - split.
+        + intros K. pose proof K as K0. apply M1 in K. destruct K as [?|[K|K]]; auto.
+          * apply in_concat in K. destruct K as [m [Hm K]]. apply in_map_iff in Hm.
+            destruct Hm as [b [<- Hb]]. apply (Hc b Hb) in K.
+            destruct K as [-> |[K| ->]]; auto.
+            -- right; left. now apply reach_base.
+            -- right; left. eapply reach_step; eauto.
+          * right; left. now apply reach_base.
+        + intros [?|[K|[-> K]]]; auto. apply M2. right.
+          apply reach_first in K. destruct K as [b [Hb K]].
+          apply in_concat. exists (c b). split; [now apply in_map|]. apply (Hc b Hb). tauto. }
+    rewrite Hl. tauto.
+Qed.
+
+(* ------------------------------------------------------------------ the freshly built graph *)
+Definition unres (r : rres) : list node := match r with ROk m _ => m | _ => [] end.
+
+Lemma calc_unfold g c x : calc g c x = unres (calc_sro false root (fuel_of g) g c x).
+Proof. reflexivity. Qed.
+
+Lemma fresh_unfold f g x :
+  fresh_sro (S f) root g x = unres (calc_sro false root (S f) g (fresh_sro f root g) x).
+Proof. reflexivity. Qed.
+
+Lemma fresh_sro_fuel g r : ranked g r -> forall f1 f2 x, r x < f1 -> r x < f2 ->
+  fresh_sro f1 root g x = fresh_sro f2 root g x.
+Proof.
+  intros R f1. induction f1 as [|f1 IH]; intros f2 x H1 H2; [lia|].
+  destruct f2 as [|f2]; [lia|]. rewrite !fresh_unfold.
+  rewrite (calc_sro_fuel g r root (fresh_sro f1 root g) R (S f1) (S f2) x) by lia.
+  rewrite (calc_sro_ext root (S f2) g (fresh_sro f1 root g) (fresh_sro f2 root g)); auto.
+  intros b Hb. specialize (R _ _ Hb). apply IH; lia.
+Qed.
+
+(* local consistency: the cached order is what _calculate_sro gives from the bases' caches *)
+Definition lc_at (g : graph) (c : node -> list node) (y : node) : Prop := c y = calc g c y.
+
+Lemma lc_fresh g r c (P : node -> Prop) : ranked g r -> (forall x, r x <= fuel_of g) ->
+  (forall y b, P y -> In b (bases g y) -> P b) ->
+  (forall y, P y -> lc_at g c y) ->
+  forall f y, P y -> r y < f -> c y = fresh_sro f root g y.
+Proof.
+  intros R Hb Hcl Hlc f. induction f as [|f IH]; intros y Py Hf; [lia|].
+  rewrite (Hlc y Py), fresh_unfold, calc_unfold.
+  rewrite (calc_sro_fuel g r root c R (fuel_of g) (S f) y) by (auto; lia).
+  f_equal. apply calc_sro_ext. intros b Hbb. specialize (R _ _ Hbb).
+  apply IH; [eapply Hcl; eauto | lia].
+Qed.
+
+Lemma lc_members g r c (P : node -> Prop) : ranked g r -> (forall x, r x <= fuel_of g) ->
+  bases g root = [] ->
+  (forall y b, P y -> In b (bases g y) -> P b) ->
+  (forall y, P y -> lc_at g c y) ->
+  forall n y, P y -> r y < n -> forall t, In t (c y) <-> t = y \/ reach g y t \/ t = root.
+Proof.
+  intros R Hb Hroot Hcl Hlc n. induction n as [|n IH]; intros y Py Hn; [lia|].
+  rewrite (Hlc y Py). apply (calc_members g r c y R (Hb y) Hroot).
+  intros b Hbb. specialize (R _ _ Hbb). apply IH; [eapply Hcl; eauto | lia].
+Qed.
+
+(* ------------------------------------------------------------------ the dependents dictionaries *)
+Definition deps_pos (l : deps_t) : Prop := Forall (fun p => 0 < snd p) l.
+
+Lemma dep_total_incr D d l :
+  dep_total D (dep_incr d l) = dep_total D l + (if Nat.eqb D d then 1 else 0).
+Proof.
+  induction l as [|[y n] l IH]; cbn.
+  - destruct (Nat.eqb D d); lia.
+  - destruct (Nat.eqb d y) eqn:E; cbn.
+    + apply Nat.eqb_eq in E. subst y. destruct (Nat.eqb D d); lia.
+    + rewrite IH. lia.
+Qed.
+
+Lemma deps_pos_incr d l : deps_pos l -> deps_pos (dep_incr d l).
+Proof.
+  unfold deps_pos. induction l as [|[y n] l IH]; cbn; intros H.
+  - constructor; cbn; auto.
+  - inversion H; subst. destruct (Nat.eqb d y); constructor; cbn in *; auto; lia.
+Qed.
+
+Lemma dep_total_decr D d l : deps_pos l ->
+  dep_total D (dep_decr d l) = dep_total D l - (if Nat.eqb D d then 1 else 0).
+Proof.
+  unfold deps_pos. induction l as [|[y n] l IH]; cbn; intros H; [lia|].
+  inversion H as [|? ? Hn Hl]; subst. cbn in Hn.
+  destruct (Nat.eqb d y) eqn:E.
+  - apply Nat.eqb_eq in E. subst y. destruct n as [|[|k]]; [lia| |]; cbn; destruct (Nat.eqb D d); lia.
+  - cbn. rewrite (IH Hl). destruct (Nat.eqb D d) eqn:E2; [|lia].
+    apply Nat.eqb_eq in E2. subst D. rewrite E. lia.
+Qed.
+
+Lemma deps_pos_decr d l : deps_pos l -> deps_pos (dep_decr d l).
+Proof.
+  unfold deps_pos. induction l as [|[y n] l IH]; cbn; intros H; auto.
+  inversion H; subst. destruct (Nat.eqb d y).
+  - destruct n as [|[|k]]; auto. constructor; cbn; auto; lia.
+  - constructor; auto.
+Qed.
+
+Lemma dep_total_remove D d l :
+  dep_total D (dep_remove d l) = if Nat.eqb D d then 0 else dep_total D l.
+Proof.
+  unfold dep_remove. induction l as [|[y n] l IH]; cbn; [destruct (Nat.eqb D d); auto|].
+  destruct (Nat.eqb y d) eqn:E; cbn; rewrite IH.
+  - apply Nat.eqb_eq in E. subst y. destruct (Nat.eqb D d); lia.
+  - destruct (Nat.eqb D d) eqn:E2; auto. apply Nat.eqb_eq in E2. subst D.
+    rewrite Nat.eqb_sym, E. lia.
+Qed.
+
+Lemma deps_pos_remove d l : deps_pos l -> deps_pos (dep_remove d l).
+Proof.
+  unfold deps_pos, dep_remove. intros H. apply Forall_forall. intros p Hp.
+  apply filter_In in Hp. rewrite Forall_forall in H. apply H. tauto.
+Qed.
+
+Lemma dep_keys_total d l : deps_pos l -> (In d (dep_keys l) <-> 0 < dep_total d l).
+Proof.
+  unfold deps_pos, dep_keys. induction l as [|[y n] l IH]; cbn; intros H; [split; [tauto|lia]|].
+  inversion H as [|? ? Hn Hl]; subst. cbn in Hn. specialize (IH Hl).
+  destruct (Nat.eqb d y) eqn:E.
+  - apply Nat.eqb_eq in E. subst. split; auto. intros _. lia.
+  - apply Nat.eqb_neq in E. rewrite IH. split; [intros [?|?]; [congruence|lia] | intros ?; right; lia].
+Qed.
+
+(* the two loops of __setBases on the dictionaries *)
+Lemma unsub_fold x l : forall dp, (forall S, deps_pos (dp S)) ->
+  let dp' := fold_left (fun dp b => unsubscribe x b dp) l dp in
+  (forall S, deps_pos (dp' S)) /\
+  (forall S D, dep_total D (dp' S) = dep_total D (dp S) - (if Nat.eqb D x then count_occ Nat.eq_dec l S else 0)).
+Proof.
+  induction l as [|b l IH]; intros dp Hp; cbn [fold_left].
+  - split; auto. intros S D. cbn. destruct (Nat.eqb D x); lia.
+  - set (dp1 := unsubscribe x b dp).
+    assert (Hp1 : forall S, deps_pos (dp1 S)).
+    { intros S. unfold dp1, unsubscribe, upd. destruct (Nat.eqb S b); auto. now apply deps_pos_decr. }
+    destruct (IH dp1 Hp1) as [A B]. split; auto. intros S D. rewrite B.
+    unfold dp1, unsubscribe, upd. destruct (Nat.eq_dec b S) as [->|N].
+    + rewrite (count_occ_cons_eq Nat.eq_dec l eq_refl), Nat.eqb_refl, dep_total_decr by auto. destruct (Nat.eqb D x); lia.
+    + assert (E : Nat.eqb S b = false) by (apply Nat.eqb_neq; congruence). rewrite E.
+      rewrite (count_occ_cons_neq Nat.eq_dec l N). destruct (Nat.eqb D x); lia.
+Qed.
+
+Lemma sub_fold x l : forall dp, (forall S, deps_pos (dp S)) ->
+  let dp' := fold_left (fun dp b => subscribe x b dp) l dp in
+  (forall S, deps_pos (dp' S)) /\
+  (forall S D, dep_total D (dp' S) = dep_total D (dp S) + (if Nat.eqb D x then count_occ Nat.eq_dec l S else 0)).
+Proof.
+  induction l as [|b l IH]; intros dp Hp; cbn [fold_left].
+  - split; auto. intros S D. cbn. destruct (Nat.eqb D x); lia.
+  - set (dp1 := subscribe x b dp).
+    assert (Hp1 : forall S, deps_pos (dp1 S)).
+    { intros S. unfold dp1, subscribe, upd. destruct (Nat.eqb S b); auto. now apply deps_pos_incr. }
+    destruct (IH dp1 Hp1) as [A B]. split; auto. intros S D. rewrite B.
+    unfold dp1, subscribe, upd. destruct (Nat.eq_dec b S) as [->|N].
+    + rewrite (count_occ_cons_eq Nat.eq_dec l eq_refl), Nat.eqb_refl, dep_total_incr. destruct (Nat.eqb D x); lia.
+    + assert (E : Nat.eqb S b = false) by (apply Nat.eqb_neq; congruence). rewrite E.
+      rewrite (count_occ_cons_neq Nat.eq_dec l N). destruct (Nat.eqb D x); lia.
+Qed.
+
+Lemma remove_fold x l : forall dp, (forall S, deps_pos (dp S)) ->
+  let dp' := fold_left (fun dp b => upd dp b (dep_remove x (dp b))) l dp in
+  (forall S, deps_pos (dp' S)) /\
+  (forall S D, dep_total D (dp' S) = if Nat.eqb D x && mem S l then 0 else dep_total D (dp S)).
+Proof.
+  induction l as [|b l IH]; intros dp Hp; cbn.
+  - split; auto. intros S D. now rewrite andb_false_r.
+  - set (dp1 := upd dp b (dep_remove x (dp b))).
+    assert (Hp1 : forall S, deps_pos (dp1 S)).
+    { intros S. unfold dp1, upd. destruct (Nat.eqb S b); auto. now apply deps_pos_remove. }
+    destruct (IH dp1 Hp1) as [A B]. split; auto. intros S D. rewrite B.
+    unfold dp1, upd. destruct (Nat.eqb S b) eqn:E; cbn.
+    + rewrite dep_total_remove. destruct (Nat.eqb D x); cbn; auto. now destruct (mem S l).
+    + reflexivity.
 Qed.
